@@ -32,6 +32,7 @@ def schedule_full(rng, norders, ncombined):
             if sub:
                 hists.append([list(sub)])
     hists += [[list(r) for r in h] for h in UNIT_START]
+    hists += repeat_histories(rng, 12)
     for _ in range(norders):
         order = FLAGS[:]
         rng.shuffle(order)
@@ -65,9 +66,50 @@ UNIT_START = [
 ]
 
 
+# histories WITH REPETITION: classes requested before ProgramUnit (they match nothing then) and requested again
+# once the units exist
+REPEAT = [
+    [['TypeDef'], ['ProgramUnit'], ['TypeDef'], ['Import']],
+    [['Import', 'TypeDef'], ['ProgramUnit'], ['Import'], ['TypeDef']],
+    [['Call'], ['ProgramUnit'], ['Call']],
+    [['Interface'], ['ProgramUnit'], ['Interface'], ['Call']],
+    [['Import'], ['ProgramUnit'], ['Import']],
+    [['Declaration', 'Call', 'Import'], ['ProgramUnit'], ['Call', 'Import']],
+    [['Interface', 'Import', 'TypeDef', 'Declaration', 'Call', 'Pragma'], ['ProgramUnit'],
+     ['Interface', 'Import', 'TypeDef', 'Declaration', 'Call', 'Pragma']],
+]
+
+
+def repeat_histories(rng, n):
+    out = [[list(r) for r in h] for h in REPEAT]
+    for _ in range(n):
+        x = rng.sample(FLAGS[1:], rng.randint(1, 4))
+        h = [x[:], ['ProgramUnit']]
+        again = x[:]
+        rng.shuffle(again)
+        cut = rng.randint(1, len(again))
+        h.append(again[:cut])
+        if again[cut:]:
+            h.append(again[cut:])
+        out.append(h)
+    return out
+
+
+def is_repeat(h):
+    """A class requested before the first request containing ProgramUnit and again in a later request."""
+    before = set()
+    for i, req in enumerate(h):
+        if 'ProgramUnit' in req:
+            later = set().union(*[set(r) for r in h[i + 1:]]) if h[i + 1:] else set()
+            return bool(before & later)
+        before |= set(req)
+    return False
+
+
 def schedule_reduced(rng, norders=3):
     hists = [[FLAGS[:]]] + [[[f]] for f in FLAGS] + [[['ProgramUnit', f]] for f in FLAGS[1:]]
     hists += [[list(r) for r in h] for h in UNIT_START]
+    hists += repeat_histories(rng, 2)
     for _ in range(norders):
         order = FLAGS[:]
         rng.shuffle(order)
@@ -350,6 +392,10 @@ def run(ctx):
     verdicts = ctx.validate('Trace_RegexDiscovery', 'Trace_RegexDiscovery', cases, timeout=1500, per_shard_min=8)
 
     # 3. verdicts -> violations with normal-form keys
+    nrepeat = sum(1 for j in jobs for h in j['hists'] if is_repeat(h))
+    ctx.cover['histories_with_repeated_request_after_units'] = nrepeat
+    if not ctx.replay and nrepeat < 20 * len({j['group'] for j in jobs}):
+        raise MachineryError(f'vacuity: only {nrepeat} request histories repeat a class after ProgramUnit')
     nsteps = sum(len(h) for c in cases for h in c['hists'])
     ctx.cover['steps_validated'] = nsteps
     ctx.cover['histories'] = sum(len(c['hists']) for c in cases)
@@ -387,7 +433,12 @@ def run(ctx):
             obs = cases[i]['obs'][o - 1]
             exc = obs[0]['name'] if obs and obs[0]['kind'] == '<exception>' else None
             how = '' if cl == 'order-dependence' else (':direct' if direct else ':incremental-only')
-            key = f"{cl}{how}:start={start}:layout={attr}" + (f':exception={exc}' if exc else '')
+            if start == 'repeat':
+                # lost although requested (again) after the program units exist
+                how, start_name = ':incremental-repeat', 'nounit'
+            else:
+                start_name = start
+            key = f"{cl}{how}:start={start_name}:layout={attr}" + (f':exception={exc}' if exc else '')
             job = jobs[i]
             if key not in reported:
                 legal, err = gfortran_accepts(ctx, results[i][1], len(reported))
@@ -396,13 +447,18 @@ def run(ctx):
                                          f'{results[i][1]}\n{err}')
                 reported.add(key)
             def exhibits(h):
-                seen = set()
+                seen, fresh = set(), set()
                 for st in h:
                     seen |= set(st['req'])
-                    if st['o'] == o and ''.join(L.CLASS_LETTER[c] for c in FLAGS if c in seen) == pstr:
+                    if 'ProgramUnit' in seen:
+                        fresh |= set(st['req'])
+                    if start == 'repeat' and 'ProgramUnit' not in seen:
+                        continue
+                    cur = (fresh | {'ProgramUnit'}) if start == 'repeat' else seen
+                    if st['o'] == o and ''.join(L.CLASS_LETTER[c] for c in FLAGS if c in cur) == pstr:
                         return True
                 return False
-            want_unit = {'unit': True, 'nounit': False}.get(start)
+            want_unit = {'unit': True, 'nounit': False, 'repeat': False}.get(start)
             cands = [h for h in cases[i]['hists'] if exhibits(h)
                      and (want_unit is None or ('ProgramUnit' in h[0]['req']) == want_unit)]
             hist = min(cands, key=len) if cands else cases[i]['hists'][0]
